@@ -47,7 +47,7 @@ def observe (d : DS) (s : S) : DS × String :=
   let whash := s.wire.foldl (fun h x => (h ^^^ x.toUInt64) * 1099511628211) d.whash
   let ctl := String.intercalate "," ((s.ctl.drop d.nctl).map (showCtl d.g))
   let items := String.intercalate "," (s.wl.map showItem)
-  let str := s!"closed={b2s s.closed} left={s.left} wl=[{items}] wadded={b2s s.isWAdded} reg={b2s s.reg} ctl=[{ctl}] wire={wlen}:{whash} onclose={s.onClose}"
+  let str := s!"closed={b2s s.closed} left={s.left} wl=[{items}] wadded={b2s s.isWAdded} reg={b2s s.reg} ctl=[{ctl}] wire={wlen}:{whash} onclose={s.onClose} wtimer={b2s s.wTimer}"
   ({ d with s := { s with wire := [], accepted := [] }, wlen, whash, nctl := s.ctl.length }, str)
 
 inductive Call
@@ -156,6 +156,16 @@ partial def loop (h : IO.FS.Stream) (d : DS) : IO Unit := do
       | _, _, _ => IO.println "bad-op"; loop h { d with dead := true }
     | ["close"] =>
       let (d', str) := observe d (close d.s)
+      IO.println s!"R {str}"; loop h d'
+    | ["deadline", t] =>
+      if t == "far" || t == "0" then
+        let (d', str) := observe d (setWriteDeadline d.s (t == "0"))
+        IO.println s!"R {str}"; loop h d'
+      else IO.println "bad-op"; loop h { d with dead := true }
+    | ["fire"] =>
+      -- the deadline expires now: only a timer that is set on an open conn is forced by the harness
+      let s := if d.s.wTimer && !d.s.closed then timerFire (timerExpire d.s) else d.s
+      let (d', str) := observe d s
       IO.println s!"R {str}"; loop h d'
     | _ =>
       match parseCall d.g rest with
